@@ -7,11 +7,11 @@
 EXTENDS Tunnel
 
 CONSTANTS MaxNow,    \* time bound of the facet
-          MaxSteps,  \* bound on the number of non-block steps between two end-blocks (ledger facets)
+          MaxSteps,  \* bound on the length of the history (ledger facets)
           NTun,      \* number of pre-created tunnels of the packet facets
           InitFee    \* their fee payers' initial balance
 
-VARIABLE steps       \* steps since the last end-block
+VARIABLE steps       \* packet facets: rank of the last environment step in this block; ledger facets: length of the history
 
 mcvars == <<vars, steps>>
 
@@ -28,12 +28,16 @@ P_1_2_3_4   == {[minDep |-> Coins(1, 2), base |-> 3, route |-> 4]}
 P_fees      == {[minDep |-> Coins(1, 2), base |-> 3, route |-> 4], [minDep |-> Coins(1, 2), base |-> 0, route |-> 2]}
 Dev_pkt     == {[soft |-> 300, hard |-> 3000], [soft |-> 3000, hard |-> 300]}
 Dev_one     == {[soft |-> 300, hard |-> 3000]}
+Dev_two     == {[soft |-> 300, hard |-> 3000], [soft |-> 10, hard |-> 300]}
 Dev_range   == {[soft |-> 300, hard |-> 3000], [soft |-> 10, hard |-> 300], [soft |-> 300, hard |-> 4000]}
 Amt_small   == {Coins(0, 0), Coins(1, 0), Coins(0, 2), Coins(1, 2), Coins(0, 3)}
 Amt_tiny    == {Coins(1, 0), Coins(0, 2)}
 Amt_zero    == {Coins(0, 0)}
 Price_pkt   == {NoPrice, 0, 100, 103, 130}
 Price_few   == {NoPrice, 100, 130}
+Price_c     == {100, 103, 130}
+Price_two   == {100, 130}
+Price_four  == {NoPrice, 100, 103, 130}
 Price_one   == {100}
 Sig_all     == {Sig}
 Sig_some    == {Sig, {}} \cup {{s} : s \in Sig}
@@ -74,14 +78,14 @@ InitPacket ==
     /\ out = "init" /\ ev = NoEv /\ last = [e |-> "Init", who |-> "none", t |-> 0]
     /\ steps = 0
 
-\* the packet rule proper: prices, route modes, funding, triggers, blocks
+\* the packet rule proper: prices, route modes, funding, triggers, blocks.  Within a block the environment
+\* steps commute, so they are explored in one canonical order (feed, route, fund, trigger) only.
 NextPktCore ==
-    /\ \/ \E a \in Acct, t \in Tuns : Trigger(a, t)
-       \/ \E s \in Sig, p \in PriceSet : SetFeed(s, p)
-       \/ \E m \in ModeSet : SetRoute(m)
-       \/ \E t \in Tuns, x \in FundSet : Fund(t, x)
-       \/ NextBlock
-    /\ steps' = 0
+    \/ steps <= 1 /\ (\E s \in Sig, p \in PriceSet : SetFeed(s, p)) /\ steps' = 1
+    \/ steps < 2 /\ (\E m \in ModeSet : SetRoute(m)) /\ steps' = 2
+    \/ steps < 3 /\ (\E t \in Tuns, x \in FundSet : Fund(t, x)) /\ steps' = 3
+    \/ steps < 4 /\ (\E a \in Acct, t \in Tuns : Trigger(a, t)) /\ steps' = 4
+    \/ NextBlock /\ steps' = 0
 
 \* plus reconfiguration
 NextPktCfg ==
@@ -95,12 +99,23 @@ NextPktCfg ==
 (***************************************************************************)
 InitLedger == Init /\ steps = 0
 
+\* (here `steps` counts all steps of the history)
 NextLedgerMC ==
-    \/ NextLedger /\ steps' = steps + 1
-    \/ NextBlock /\ steps' = 0
-    \/ (\E t \in Tuns, x \in FundSet : Fund(t, x)) /\ steps' = steps + 1
+    /\ \/ NextLedger
+       \/ NextBlock
+       \/ \E t \in Tuns, x \in FundSet : Fund(t, x)
+    /\ steps' = steps + 1
 
-NextAllMC ==
-    \/ (NextLedger \/ NextPacket) /\ steps' = steps + 1
-    \/ NextBlock /\ steps' = 0
+\* the same with the unaccepted denom tried with one amount only (refusals do not depend on the amount)
+NextLedgerSmall ==
+    /\ \/ \E a \in Acct, k \in KindSet, iv \in IvSet, S \in SigSets, dv \in Devs, d0 \in AmtSet :
+             CreateTunnel(a, k, iv, S, [s \in Sig |-> dv[s].soft], [s \in Sig |-> dv[s].hard], d0)
+       \/ \E a \in Acct, t \in Tuns : Activate(a, t) \/ Deactivate(a, t)
+       \/ \E a \in Acct, t \in Tuns, amt \in AmtSet : Deposit(a, t, amt, FALSE) \/ Withdraw(a, t, amt, FALSE)
+       \/ \E a \in Acct, t \in Tuns : Deposit(a, t, Coins(1, 0), TRUE) \/ Withdraw(a, t, Coins(1, 0), TRUE)
+       \/ NextBlock
+       \/ \E t \in Tuns, x \in FundSet : Fund(t, x)
+    /\ steps' = steps + 1
+
+NextAllMC == Next /\ steps' = steps + 1
 =============================================================================
